@@ -279,24 +279,12 @@ def s2k_count(c: int) -> bool:
     return s.count == want and s._count == c
 
 
-def SANITY():
-    """native concrete runs of every harness on the repo's own test vectors and boundaries"""
-    n = 0
-    for v in (0, 1, 191, 192, 193, 8383, 8384, 8385, 65535, 65536, 2 ** 24, 2 ** 32 - 1):
-        assert newlen_roundtrip(v), v
-        assert newfmt_header(2, v) and newfmt_header(63, v)
-        assert subpacket_header(2, True, max(v, 1))
-        n += 4
-    assert rfc_newlen(1723) == rfc_newlen_arith(1723) == b'\xC5\xFB'       # RFC 4880 4.2.3 example
-    assert rfc_newlen(100000) == b'\xff\x00\x01\x86\xa0'
-    assert newlen_decode(0xC5, 0xFB, 0, 0, 0) and newlen_decode(0xFF, 0, 1, 0x86, 0xA0)
-    assert partial_lengths(2, 1, 0, 2, 7) and partial_lengths(1, 3, 0, 0, 0)
-    assert oldfmt_header(6, 0, 255) and oldfmt_header(6, 1, 65535) and oldfmt_header(2, 2, 2 ** 32 - 1)
-    for v in (1, 2, 255, 256, 65535, 2 ** 39, 2 ** 40 - 1):
-        assert mpi_roundtrip(v), v
-        n += 1
-    assert mpi_foreign(9, 0, 0xFF, 3, 4, 5) and mpi_foreign(0, 1, 2, 3, 4, 5) and mpi_foreign(40, 1, 2, 3, 4, 5)
-    for c in range(256):
-        assert s2k_count(c)
-        n += 1
-    return n + 12
+assert rfc_newlen(1723) == rfc_newlen_arith(1723) == b'\xC5\xFB' and rfc_newlen(100000) == b'\xff\x00\x01\x86\xa0'   # RFC 4880 4.2.3
+_GRID = (0, 1, 191, 192, 193, 8383, 8384, 8385, 65535, 65536, 2 ** 24, 2 ** 32 - 1)
+SANITY = (['newlen_roundtrip(%d)' % v for v in _GRID] + ['newfmt_header(2, %d)' % v for v in _GRID] +
+          ['newfmt_header(63, %d)' % v for v in _GRID] + ['subpacket_header(2, True, %d)' % max(v, 1) for v in _GRID] +
+          ['newlen_decode(0xC5, 0xFB, 0, 0, 0)', 'newlen_decode(0xFF, 0, 1, 0x86, 0xA0)', 'partial_lengths(2, 1, 0, 2, 7)',
+           'partial_lengths(1, 3, 0, 0, 0)', 'oldfmt_header(6, 0, 255)', 'oldfmt_header(6, 1, 65535)', 'oldfmt_header(2, 2, 2 ** 32 - 1)',
+           'mpi_foreign(9, 0, 0xFF, 3, 4, 5)', 'mpi_foreign(0, 1, 2, 3, 4, 5)', 'mpi_foreign(40, 1, 2, 3, 4, 5)'] +
+          ['mpi_roundtrip(%d)' % v for v in (1, 2, 255, 256, 65535, 2 ** 39, 2 ** 40 - 1)] +
+          ['s2k_count(%d)' % c for c in range(256)])
